@@ -15,6 +15,7 @@ import (
 
 // Target names one Go function to translate.
 type Target struct {
+	Fuel string            // optional: Gallina nat term over the parameter names (v_<param>) = fuel of general loops; default S (sum of the lengths of the []byte parameters)
 	Pkg  string            // directory under the acra root, e.g. "decryptor/mysql/base"
 	Func string            // "LengthEncodedInt" or "AcraBlock.getKeyEncryptionKeyID" (method: receiver type first)
 	Name string            // name of the Gallina definition
@@ -74,6 +75,7 @@ type doneFn struct {
 	name   string
 	res    []gtype // results without the error
 	hasErr bool
+	ghost  bool // has a nil-sensitive slice parameter (extra bool argument): not callable from translated code
 }
 
 // per function
@@ -91,7 +93,15 @@ type fn struct {
 	errNil  map[types.Object]bool   // error variables known to be nil
 	errTerm map[types.Object]string // error variables bound to a Gallina error class
 	joinVars map[string][]types.Object
+	// xtr2 extensions
+	ghostNil  map[types.Object]string // slice parameters compared with nil -> ghost bool parameter
+	paramSet  map[types.Object]bool
+	loops     []loopCtx
+	lenParams []string // Gallina names of the []byte parameters (default fuel of a general loop)
 }
+
+// loopCtx: the Gallina terms `continue` and `break` stand for inside the innermost loop
+type loopCtx struct{ cont, brk string }
 
 func (f *fn) fail(n ast.Node, format string, a ...interface{}) {
 	pos := f.t.l.fset.Position(n.Pos())
@@ -546,6 +556,9 @@ func (f *fn) expr(e ast.Expr) ex {
 			}
 			return ex{append(a.binds, bind{t, term}), t, ty}
 		case token.EQL, token.NEQ, token.LSS, token.LEQ, token.GTR, token.GEQ:
+			if t, ok := f.nilTest(x); ok {
+				return ex{nil, t, ty}
+			}
 			a, b := f.expr(x.X), f.expr(x.Y)
 			return ex{append(a.binds, b.binds...), f.cmp(e, x.Op, a, b), ty}
 		case token.SHL, token.SHR:
@@ -729,6 +742,12 @@ func (f *fn) call(c *ast.CallExpr) ex {
 	// builtin len
 	if id, ok := c.Fun.(*ast.Ident); ok {
 		if _, isB := f.pi.info.Uses[id].(*types.Builtin); isB {
+			switch id.Name {
+			case "append":
+				return f.appendCall(c)
+			case "make":
+				return f.makeCall(c)
+			}
 			if id.Name == "len" && len(c.Args) == 1 {
 				a := f.expr(c.Args[0])
 				switch a.ty.k {
@@ -770,6 +789,9 @@ func (f *fn) call(c *ast.CallExpr) ex {
 	}
 	if d == nil {
 		f.fail(c, "call of %s, which is not (yet) translated: put it before this function in the target list", key)
+	}
+	if d.ghost {
+		f.fail(c, "call of %s, which distinguishes a nil slice argument from an empty one", key)
 	}
 	if d.hasErr {
 		f.fail(c, "call of %s (returns an error) outside `x, err := f(..)` followed by `if err != nil {..}`", key)
@@ -814,6 +836,8 @@ func terminates(stmts []ast.Stmt) bool {
 	switch s := stmts[len(stmts)-1].(type) {
 	case *ast.ReturnStmt:
 		return true
+	case *ast.BranchStmt:
+		return s.Label == nil && (s.Tok == token.BREAK || s.Tok == token.CONTINUE)
 	case *ast.BlockStmt:
 		return terminates(s.List)
 	case *ast.IfStmt:
@@ -1313,6 +1337,28 @@ func (f *fn) block(stmts []ast.Stmt, k kont) string {
 		return f.ifStmt(x, rest, k)
 	case *ast.SwitchStmt:
 		return f.switchStmt(x, rest, k)
+	case *ast.ForStmt:
+		return f.forStmt(x, rest, k)
+	case *ast.RangeStmt:
+		return f.rangeStmt(x, rest, k)
+	case *ast.BranchStmt:
+		if x.Label != nil || len(f.loops) == 0 {
+			f.fail(s, "%s with a label / outside a loop", x.Tok)
+		}
+		switch x.Tok {
+		case token.CONTINUE:
+			return f.loops[len(f.loops)-1].cont
+		case token.BREAK:
+			return f.loops[len(f.loops)-1].brk
+		}
+	case *ast.ExprStmt:
+		if c, ok := x.X.(*ast.CallExpr); ok {
+			if id, ok := c.Fun.(*ast.Ident); ok && id.Name == "copy" {
+				if _, isB := f.pi.info.Uses[id].(*types.Builtin); isB {
+					return f.copyStmt(c) + f.block(rest, k)
+				}
+			}
+		}
 	}
 	f.fail(s, "statement %T", s)
 	return ""
@@ -1602,7 +1648,8 @@ func (t *trans) function(tg Target) (err error) {
 		return fmt.Errorf("xtr: function %s not found in %s", tg.Func, tg.Pkg)
 	}
 	f := &fn{t: t, pi: pi, tg: tg, fd: fd, names: map[types.Object]string{}, used: map[string]bool{},
-		errNil: map[types.Object]bool{}, errTerm: map[types.Object]string{}, joinVars: map[string][]types.Object{}}
+		errNil: map[types.Object]bool{}, errTerm: map[types.Object]string{}, joinVars: map[string][]types.Object{},
+		ghostNil: map[types.Object]string{}, paramSet: map[types.Object]bool{}}
 	// a type error inside the body means the type information cannot be trusted
 	for _, te := range pi.errs {
 		if te.pos >= fd.Pos() && te.pos <= fd.End() {
@@ -1621,6 +1668,7 @@ func (t *trans) function(tg Target) (err error) {
 		f.fail(fd, "generic function")
 	}
 	var params []string
+	var paramObjs []types.Object
 	addParam := func(id *ast.Ident) {
 		o := pi.info.Defs[id]
 		if o == nil { // unnamed / blank
@@ -1631,6 +1679,11 @@ func (t *trans) function(tg Target) (err error) {
 			f.fail(id, "error parameter")
 		}
 		params = append(params, fmt.Sprintf("(%s : %s)", f.nameOf(o), ty.coq()))
+		paramObjs = append(paramObjs, o)
+		f.paramSet[o] = true
+		if ty.k == gBytes {
+			f.lenParams = append(f.lenParams, f.nameOf(o))
+		}
 	}
 	if fd.Recv != nil {
 		if len(fd.Recv.List) != 1 || len(fd.Recv.List[0].Names) != 1 {
@@ -1686,6 +1739,17 @@ func (t *trans) function(tg Target) (err error) {
 		}
 	}
 	body := init.String() + f.block(fd.Body.List, kont{})
+	// nil-sensitive slice parameters: one extra bool parameter each, in front of the slice
+	if len(f.ghostNil) > 0 {
+		var np []string
+		for i, o := range paramObjs {
+			if g, ok := f.ghostNil[o]; ok {
+				np = append(np, fmt.Sprintf("(%s : bool)", g))
+			}
+			np = append(np, params[i])
+		}
+		params = np
+	}
 	var rts []string
 	for _, r := range f.resT {
 		rts = append(rts, r.coq())
@@ -1708,7 +1772,7 @@ func (t *trans) function(tg Target) (err error) {
 	}
 	fmt.Fprintf(&t.out, " *)\nDefinition %s %s : res (%s) :=\n%s.\n\n", tg.Name, strings.Join(params, " "), rt, indent(body))
 	key := pi.path + "." + tg.Func
-	t.done[key] = &doneFn{name: tg.Name, res: f.resT, hasErr: f.hasErr}
+	t.done[key] = &doneFn{name: tg.Name, res: f.resT, hasErr: f.hasErr, ghost: len(f.ghostNil) > 0}
 	return nil
 }
 
@@ -1762,8 +1826,12 @@ Definition tr_has_prefix (s prefix : bytes) : bool := starts_with prefix s.
 //              (no fallthrough/break), return (named results too), `.., err := g(..)` + `if err != nil {..}`,
 //              `if err := g(..); err != nil {..}`, `_, ok := m[k]` for a never-written package-level map literal
 //              with constant keys, logrus statements whose arguments are identifiers/constants/len (skipped)
-//   not        loops, goto/break/continue/fallthrough/defer/go, pointers, structs, interfaces, closures, append,
-//              copy, make, division, shifts by variables, strings, floats, maps otherwise, panics/recover
+//   xtr2       (ext.go) append / make / copy on owned slices, `p == nil` on a never-assigned []byte parameter
+//              (extra bool parameter), range loops over []byte, counted loops, general loops on fuel, unlabelled
+//              break / continue
+//   not        goto/labels/fallthrough/defer/go, pointers, structs, arrays, interfaces, closures, element assignment,
+//              division, shifts by variables, strings, runes, floats, maps otherwise, [][]byte, panics/recover,
+//              comparison of error values, nil comparison of local slices, append to a slice that is not owned
 func Translate(repo string, targets []Target) (string, error) {
 	t := &trans{l: newLoader(repo), targets: targets, done: map[string]*doneFn{}, globals: map[string]string{}}
 	t.out.WriteString(prelude)
